@@ -5,6 +5,8 @@ package snaps
 import (
 	"encoding/json"
 	"fmt"
+	"os"
+	"path/filepath"
 	"strings"
 
 	"github.com/goccy/go-yaml"
@@ -148,6 +150,17 @@ func c02Gen(c *vfCtx, emit func(c02Case)) {
 		pairs("snap", tricky, color, "unset")
 		pairs("ssnap", tricky, color, "unset")
 	}
+	// the same JSON document recorded under other format options (indent, key order, width) than the ones it is matched with:
+	// the stored TEXT differs, so the call fails (it is not for the library to decide that two layouts are the same snapshot)
+	for _, api := range []string{"json", "sjson"} {
+		for _, doc := range []string{`{"b":[1,2,3],"a":{"c":1}}`, `[{"k":"v"},2]`, `{"z":1,"a":2}`} {
+			for _, color := range []bool{false, true} {
+				for _, lay := range []string{"layout-indent4", "layout-unsorted", "layout-width"} {
+					emit(c02Case{API: api, S: doc, R: doc, Color: color, Mode: lay})
+				}
+			}
+		}
+	}
 	// stored texts with a carriage return at the end of a line (known finding K14: the line reader drops it; a line `---\r` even ends the entry)
 	crs := []string{"a", "a\r", "a\r\nb", "a\nb", "a\n---\r\nb", "a\n---\r", "---\r\nb", "a\r\n", "a\n", "a\r\r\nb", "a\r\nb\r"}
 	for _, color := range []bool{false, true} {
@@ -165,6 +178,65 @@ func c02Gen(c *vfCtx, emit func(c02Case)) {
 
 // c02Equivalent: K1's predicate — the two values differ but become equal once
 // whole lines `/-/-/-/` are mapped to `---` (the escape is not injective).
+// c02Layout: record the document through a Config with non-default JSON format options, match the same document through the
+// default Config. If the two stored texts differ in any byte the call must fail and modify nothing.
+func c02Layout(c *vfCtx, cs c02Case) {
+	dir := c.newWorld()
+	vfResetState(false, "", true)
+	jc := map[string]JSONConfig{
+		"layout-indent4":  {Indent: "    ", SortKeys: true, Width: 80},
+		"layout-unsorted": {Indent: " ", SortKeys: false, Width: 80},
+		"layout-width":    {Indent: " ", SortKeys: true, Width: 4},
+	}[cs.Mode]
+	rec := WithConfig(Dir(dir), Filename("f"), JSON(jc))
+	def := WithConfig(Dir(dir), Filename("f"))
+	do := func(cfg *Config, t *vfT) {
+		if cs.API == "sjson" {
+			cfg.MatchStandaloneJSON(t, cs.S)
+		} else {
+			cfg.MatchJSON(t, cs.S)
+		}
+	}
+	t := &vfT{name: "TestA"}
+	do(rec, t)
+	t.end()
+	// what the default options would have stored, in a second directory
+	dir2 := filepath.Join(c.scratch, "w2")
+	os.RemoveAll(dir2)
+	os.MkdirAll(dir2, 0o755)
+	t0 := &vfT{name: "TestA"}
+	do(WithConfig(Dir(dir2), Filename("f")), t0)
+	t0.end()
+	c.count("transitions", 2)
+	if len(t.errs)+len(t0.errs) > 0 {
+		c.harnessErr("C02 layout: recording failed: %v %v", t.errs, t0.errs)
+		return
+	}
+	if string(vfAllBytes(dir)) == string(vfAllBytes(dir2)) {
+		c.count("pairs_formatting_identically", 1)
+		return // these options do not change the text of this document
+	}
+	c.addSet("nontrivial", vfHashJSON(cs))
+	vfPlantSentinel(dir)
+	before := vfSnapDir(dir)
+	vfResetState(false, "", !cs.Color)
+	t2 := &vfT{name: "TestA"}
+	mk := t2.mark()
+	ops := vfLogged(func() { do(def, t2) })
+	t2.end()
+	c.count("transitions", 1)
+	got := t2.outcome(mk)
+	c.outcome("layout:" + got)
+	c.addSet("states", vfHash(cs.Mode, cs.S, got))
+	if got != "failed" {
+		c.violation("", fmt.Sprintf("%s of %q: stored under JSON options %s, matched under the default ones (the stored text differs): the call signalled %s instead of exactly one failure", cs.API, cs.S, cs.Mode, got), cs)
+		return
+	}
+	if muts := vfMutOps(ops); len(muts) > 0 || vfDirDiff(before, vfSnapDir(dir), true) != "" {
+		c.violation("", fmt.Sprintf("mismatching call (layout) modified the snapshot directory: %s", vfShowOps(muts)), cs)
+	}
+}
+
 func c02K1(s, r string) bool {
 	un := func(x string) string {
 		ls := strings.Split(x, "\n")
@@ -199,6 +271,10 @@ func c02Run(c *vfCtx, cs c02Case) {
 		env = "yes"
 	}
 	call := func(v string) vfCall { return vfCall{API: cs.API, Val: v, Upd: upd} }
+	if strings.HasPrefix(cs.Mode, "layout-") {
+		c02Layout(c, cs)
+		return
+	}
 	if vfFormat(call(cs.S)) == vfFormat(call(cs.R)) {
 		// the property speaks about the FORMATTED value: two values that format identically are not a pair
 		c.count("pairs_formatting_identically", 1)
